@@ -513,6 +513,10 @@ def run(ctx):
     for i in range(nr):
         budget = [rng.choice([20, 60, 150, 400])]
         x = rand_nest(rng, rng.randint(1, 8), rng.randint(1, 8), budget)
+        if i % 12 == 5:
+            # lists, tuples and dicts by isinstance: OrderedDict, defaultdict, namedtuple, user subclasses
+            x = gen.subclassed(rng, x, 0.5)
+            ctx.count("nestings-with-container-subclasses")
         roundtrip(ctx, mon, x, "random")
         if i % 1009 == 0:
             ctx.sample({"op": "roundtrip", "value": gen.trepr(x)[:300]})
